@@ -49,6 +49,12 @@ func EndBlocker(ctx sdk.Context, k keeper.Keeper) {
 			}
 		}
 
+		// a paused context that has used up its batches is finished as well
+		if requestContext.State == types.PAUSED &&
+			!(requestContext.Repeated && (requestContext.RepeatedTotal < 0 || int64(requestContext.BatchCounter) < requestContext.RepeatedTotal)) {
+			k.CompleteServiceContext(ctx, requestContext, requestContextID)
+		}
+
 		k.CleanBatch(ctx, requestContext, requestContextID)
 		endBlockHook(ctx, "expire", requestContextID)
 	}
